@@ -35,6 +35,7 @@ def coverage_event(tid, given, kw, sizekw, dedup):
     for s_, f_ in zip(x.examples.strings, x.examples.freqs):
         store[s_] = store.get(s_, 0) + int(f_)
     r['store_is_supplied'] = (store == dict(kept)) and len(x.examples.strings) == len(set(x.examples.strings))
+    r['store_has_repeated_entries'] = len(x.examples.strings) != len(set(x.examples.strings))
     ev = {'tid': tid, 'mx': mx, 'freq': freqs, 'dedup': bool(dedup), 'res': res,
           'cov': [int(v) for v in cov] + [0] * max(0, len(rexes) - len(cov)), 'ncov': len(cov), 'covdedup': bool(dedup),
           'allmatched': all(any(row[i] for row in mx) for i in range(len(strings))),
@@ -84,9 +85,9 @@ def run(chk):
         ev, r = coverage_event(tid, given, kw, sizekw, dedup)
         if ev is None:
             continue
-        if not r['store_is_supplied'] and sizekw is None:
-            # an unmatched example (C03's finding) made the loop append failures it already had: the object's store is
-            # not the supplied multiset; C03 reports the witness, nothing is demanded here (Appendix A)
+        if r['store_has_repeated_entries'] and sizekw is None:
+            # an unmatched example (C03's finding) made the loop append failures it already had: the object's store lists
+            # strings twice; C03 reports the witness, nothing is demanded here (Appendix A)
             chk.coverage['runs_skipped_because_C03_failed'] = chk.coverage.get('runs_skipped_because_C03_failed', 0) + 1
             continue
         ev['sampling'] = sizekw is not None
